@@ -2,7 +2,9 @@ package c10lab
 
 import (
 	"context"
+	"encoding/json"
 	"fmt"
+	"io"
 	"net/http"
 	"sort"
 	"strconv"
@@ -37,7 +39,94 @@ type DPlan struct {
 	Descs   []*Desc
 	NoFetch map[int]bool // descriptors that own no fetch (probe: no DeferFetchGroup is created)
 	Valid   bool         // built by the scope-respecting assignment
+	// Fail: groups whose fetch phase fails HARD (ResolveFetchNode returns a Go error, the branch of
+	// resolveDeferSingle that ends in ResolveDeferError): FailRate = the rate limiter returns an error,
+	// FailAuth = the pre-fetch authorizer returns an error (both in the prepare phase, before any Load),
+	// FailMerge = the subgraph answers a JSON array, which the merge phase cannot merge into the object.
+	Fail map[int]int
+	// Window: every Flush but the first is slow, and while it is in progress the fetch of one more blocked
+	// group is released: anything written before the Flush returns shows render + flush is not atomic.
+	Window bool
 }
+
+const (
+	FailRate  = 1
+	FailAuth  = 2
+	FailMerge = 3
+)
+
+// DrawFailures marks one group (1/4: two) as failing hard, preferring groups that have a sibling (another
+// defer with the same parent: the two run concurrently under a Parallel node).
+func DrawFailures(r *common.Rand, p *DPlan) {
+	p.Fail = map[int]int{}
+	if len(p.Descs) == 0 {
+		return
+	}
+	var withSib []*Desc
+	for _, d := range p.Descs {
+		for _, e := range p.Descs {
+			if e.ID != d.ID && e.Parent == d.Parent {
+				withSib = append(withSib, d)
+				break
+			}
+		}
+	}
+	n := 1
+	if r.Chance(1, 4) {
+		n = 2
+	}
+	for k := 0; k < n; k++ {
+		pool := p.Descs
+		if len(withSib) > 0 && r.Chance(4, 5) {
+			pool = withSib
+		}
+		p.Fail[pool[r.Pick(len(pool))].ID] = 1 + r.Pick(3)
+	}
+}
+
+// HasFailingSibling: some failing group has a sibling defer.
+func (p *DPlan) HasFailingSibling() bool {
+	for _, d := range p.Descs {
+		if p.Fail[d.ID] == 0 {
+			continue
+		}
+		for _, e := range p.Descs {
+			if e.ID != d.ID && e.Parent == d.Parent {
+				return true
+			}
+		}
+	}
+	return false
+}
+
+type hardError string
+
+func (e hardError) Error() string { return string(e) }
+
+// failLimiter / failAuthorizer return a Go error for the data sources of the failing groups.
+type failLimiter struct{ ids map[string]bool }
+
+func (l *failLimiter) RateLimitPreFetch(_ *resolve.Context, info *resolve.FetchInfo, _ json.RawMessage) (*resolve.RateLimitDeny, error) {
+	if info != nil && l.ids[info.DataSourceID] {
+		return nil, hardError("rate limiter failed for " + info.DataSourceID)
+	}
+	return nil, nil
+}
+func (l *failLimiter) RenderResponseExtension(*resolve.Context, io.Writer) error { return nil }
+
+type failAuthorizer struct{ ids map[string]bool }
+
+func (a *failAuthorizer) AuthorizePreFetch(_ *resolve.Context, ds string, _ json.RawMessage, _ resolve.GraphCoordinate) (*resolve.AuthorizationDeny, error) {
+	if a.ids[ds] {
+		return nil, hardError("authorizer failed for " + ds)
+	}
+	return nil, nil
+}
+func (a *failAuthorizer) AuthorizeObjectField(*resolve.Context, string, json.RawMessage, resolve.GraphCoordinate) (*resolve.AuthorizationDeny, error) {
+	return nil, nil
+}
+func (a *failAuthorizer) HasResponseExtensionData(*resolve.Context) bool           { return false }
+func (a *failAuthorizer) RenderResponseExtension(*resolve.Context, io.Writer) error { return nil }
 
 // ---------------------------------------------------------------- generator
 
@@ -329,6 +418,7 @@ func (p *DPlan) Execute(primary string, slices map[int]string, choose func(step 
 	obj := p.Root.Build().(*resolve.Object)
 	p.build(p.Root, obj)
 	descs := map[int]resolve.DeferDescriptor{}
+	rateFail, authFail := map[string]bool{}, map[string]bool{}
 	var raw []*resolve.FetchItem
 	raw = append(raw, &resolve.FetchItem{Fetch: &resolve.SingleFetch{
 		FetchDependencies:  resolve.FetchDependencies{FetchID: 0},
@@ -347,10 +437,24 @@ func (p *DPlan) Execute(primary string, slices map[int]string, choose func(step 
 		if s, ok := slices[d.ID]; ok {
 			body = s
 		}
-		raw = append(raw, &resolve.FetchItem{Fetch: &resolve.SingleFetch{
+		sf := &resolve.SingleFetch{
 			FetchDependencies:  resolve.FetchDependencies{FetchID: d.ID, DeferID: d.ID},
 			FetchConfiguration: resolve.FetchConfiguration{DataSource: &gateSource{co: co, id: d.ID, data: []byte(body)}},
-		}})
+		}
+		switch p.Fail[d.ID] {
+		case FailRate:
+			ds := fmt.Sprintf("g%d", d.ID)
+			rateFail[ds] = true
+			sf.Info = &resolve.FetchInfo{DataSourceID: ds, DataSourceName: ds, OperationType: ast.OperationTypeQuery}
+		case FailAuth:
+			ds := fmt.Sprintf("g%d", d.ID)
+			authFail[ds] = true
+			sf.Info = &resolve.FetchInfo{DataSourceID: ds, DataSourceName: ds, OperationType: ast.OperationTypeMutation,
+				RootFields: []resolve.GraphCoordinate{{TypeName: "Mutation", FieldName: "f", HasAuthorizationRule: true}}}
+		case FailMerge:
+			sf.DataSource = &gateSource{co: co, id: d.ID, data: []byte(`[1]`)}
+		}
+		raw = append(raw, &resolve.FetchItem{Fetch: sf})
 	}
 	resp := &resolve.GraphQLDeferResponse{
 		Response: &resolve.GraphQLResponse{
@@ -383,6 +487,54 @@ func (p *DPlan) Execute(primary string, slices map[int]string, choose func(step 
 		co.lastEv = time.Now()
 		co.mu.Unlock()
 	}
+	if p.Window {
+		out.Rec.SlowFlush = func(w *Recorder, nflush int) {
+			// a slow Flush: meanwhile one more blocked group (if any shows up) gets its answer.  Under the
+			// DataBuffer lock that group can only queue up behind the lock; the Flush ends a moment after its
+			// Load returned, or as soon as somebody else has written and flushed.
+			t0 := time.Now()
+			released := false
+			var idleSince time.Time
+			for time.Since(t0) < 4*time.Millisecond {
+				if w.Foreign() > 0 {
+					// another group is writing: give it the time to flush as well (bounded)
+					t1 := time.Now()
+					for w.FlushCalls() <= nflush+1 && time.Since(t1) < 2*time.Millisecond {
+						time.Sleep(20 * time.Microsecond)
+					}
+					return
+				}
+				co.mu.Lock()
+				co.lastEv = time.Now() // keeps the ordinary release loop out of the way
+				if !released && len(co.blocked) > 0 {
+					var ids []int
+					for id := range co.blocked {
+						ids = append(ids, id)
+					}
+					sort.Ints(ids)
+					id := ids[choose(1000+nflush, ids)%len(ids)]
+					co.inflight++
+					close(co.blocked[id])
+					delete(co.blocked, id)
+					out.Released = append(out.Released, id)
+					released = true
+				}
+				idle := released && co.inflight == 0
+				co.mu.Unlock()
+				if idle {
+					if idleSince.IsZero() {
+						idleSince = time.Now()
+					} else if time.Since(idleSince) > 500*time.Microsecond {
+						return
+					}
+				}
+				if !released && time.Since(t0) > 700*time.Microsecond {
+					return
+				}
+				time.Sleep(20 * time.Microsecond)
+			}
+		}
+	}
 	finished := make(chan struct{})
 	go func() {
 		defer close(finished)
@@ -392,6 +544,13 @@ func (p *DPlan) Execute(primary string, slices map[int]string, choose func(step 
 			}
 		}()
 		rctx := resolve.NewContext(ctx)
+		if len(rateFail) > 0 {
+			rctx.RateLimitOptions = resolve.RateLimitOptions{Enable: true}
+			rctx.SetRateLimiter(&failLimiter{ids: rateFail})
+		}
+		if len(authFail) > 0 {
+			rctx.SetAuthorizer(&failAuthorizer{ids: authFail})
+		}
 		_, out.Err = resolver().ResolveGraphQLDeferResponse(rctx, resp, out.Rec)
 	}()
 	step := 0
